@@ -575,37 +575,50 @@ def rule_dispatch_addresses(ctx) -> None:
         chk.decide(ok, "C13.own-address", f"{fn.qual}", "every non-empty data blob and segment is encrypted exactly once, at its own absolute address plus the table / key-blob base",
                    f"encrypted (length, address): {[(len(d), hex(a) if isinstance(a, int) else a) for d, a in log]} ({out.kind})", f"{[(len(d), hex(a)) for d, a in want_log]}", A.loc(rp, fn.node))
     chk.floor("C13.own-address", 2)
-    # BEE: each block is offered to every configured engine
+    # BEE: each block is offered to every configured engine.  BeeNxp.export_image evaluated as a whole function on a model with
+    # three engine slots (one unused); engines record what they are offered and tag the block; their bounding boxes say anything.
     BEE = "spsdk/image/bee.py"
     fn = ctx.own(BEE, "BeeNxp", "export_image")
-    loops = [n for n in ast.walk(fn.node) if isinstance(n, ast.For) and norm(n.iter) == "self.headers"]
-    if len(loops) != 1:
-        raise AnalysisError("C13.every-engine: loop over the engine headers not found")
     from ..engines.ordereval import Evaluator, Obj, Unsupported
+    unit = ctx.prog.fold(ast.Name(id="BEE_ENCR_BLOCK_SIZE", ctx=ast.Load()), fn.module)
+    if not isinstance(unit, int) or unit <= 0:
+        raise AnalysisError("C13.every-engine: BEE_ENCR_BLOCK_SIZE does not fold")
     probs = []
     n = 0
+    image = bytes([1]) * unit + bytes([2]) * unit + bytes([3]) * (unit // 2)
     for inside in ((False, False), (True, False), (False, True), (True, True)):
-        offered = []
+        offered: List[Tuple[int, int, int]] = []
 
-        def sym(e, inside=inside, offered=offered):
-            if isinstance(e, ast.Call) and isinstance(e.func, ast.Attribute) and e.func.attr == "encrypt_block":
-                offered.append(holder["ev"].ev(e.func.value).ix)
-                return holder["ev"].ev(e.args[1])
-            if isinstance(e, ast.Call) and isinstance(e.func, ast.Attribute) and e.func.attr == "is_inside_region":
-                return inside[holder["ev"].ev(e.func.value).ix]
-            return None
-        holder = {}
-        ev = Evaluator({"self.headers": (Obj(ix=0), Obj(ix=1)), "base_address": 0x1000, "block": b"x"}, sym)
-        holder["ev"] = ev
+        def cv(c: ast.Call, ev, inside=inside, offered=offered):
+            f = norm(c.func)
+            if f == "split_data" and len(c.args) == 2:
+                d_, u_ = bytes(ev.ev(c.args[0])), ev.ev(c.args[1])
+                return tuple(d_[i:i + u_] for i in range(0, len(d_), u_))
+            if isinstance(c.func, ast.Attribute) and c.func.attr in ("encrypt_block", "is_inside_region"):
+                try:
+                    eng = ev.ev(c.func.value)
+                except Unsupported:
+                    return ordereval.NOT_MODELLED
+                if isinstance(eng, Obj) and "ix" in eng.__dict__:
+                    if c.func.attr == "is_inside_region":
+                        return inside[eng.ix]
+                    addr, blk = ev.ev(c.args[0]), bytes(ev.ev(c.args[1]))
+                    offered.append((eng.ix, addr, len(blk)))
+                    return bytes((x + 16 * (eng.ix + 1)) & 0xFF for x in blk)
+            return ordereval.NOT_MODELLED
+        me = Obj(headers=(Obj(ix=0), None, Obj(ix=1)), input_image=image, base_address=0x6000_1000)
         try:
-            ev.run([loops[0]])
+            out = Evaluator({"self": me}, ctx.fold_sym(fn), opaque_return=False, call_value=cv).run(A.body_of(fn.node))
         except Unsupported as u:
-            raise AnalysisError(f"C13.every-engine: engine loop left the fragment: {u}")
+            raise AnalysisError(f"C13.every-engine: {fn.qual} left the fragment: {u}")
         n += 1
-        if offered != [0, 1]:
-            probs.append(f"engine bounding boxes contain the block: {inside} -> block offered to engines {offered}")
-    chk.decide(not probs, "C13.every-engine", fn.qual, f"each block is passed to both engines in order, whatever the engines' bounding boxes say ({n} cases); the FAC region test inside encrypt_block decides",
-               "; ".join(probs[:2]), "for header in self.headers: if header: block = header.encrypt_block(base_address, block)", A.loc(BEE, loops[0]))
+        want_off = [(ix, 0x6000_1000 + k * unit, ln) for k, ln in enumerate((unit, unit, unit // 2)) for ix in (0, 1)]
+        want_out = bytes((x + 48) & 0xFF for x in image)
+        if offered != want_off or out.kind != "return" or bytes(out.value) != want_out:
+            probs.append(f"engine bounding boxes say {inside}: blocks offered (engine, address, length) {[(i, hex(a_), l) for i, a_, l in offered][:6]}")
+    chk.exhaustive_rules.add("C13.every-engine")
+    chk.decide(not probs, "C13.every-engine", fn.qual, f"each block is passed to every configured engine in order at its own address, whatever the engines' bounding boxes say ({n} cases); the FAC region test inside encrypt_block decides",
+               "; ".join(probs[:2])[:600], "for header in self.headers: if header: block = header.encrypt_block(base_address, block)", A.loc(BEE, fn.node))
 
 
 def run(ctx) -> None:
